@@ -693,6 +693,11 @@ fn cases(tier: Tier) -> Vec<Case> {
         Fmt::Special(Special::Ascii(0o14)),
         Fmt::Special(Special::Ascii(0o12)),
         Fmt::Special(Special::Ascii(0o212)),
+        Fmt::Special(Special::Ascii(0o176)),
+        Fmt::Special(Special::Ascii(0o42)),
+        Fmt::Special(Special::Ascii(0o134)),
+        Fmt::Special(Special::Backslash),
+        Fmt::Lit("~".into()),
         Fmt::Special(Special::Form),
         Fmt::Special(Special::CarriageReturn),
         Fmt::Lit("\\n".into()),
